@@ -159,7 +159,7 @@ Qed.
 (* the tail of connect_module after a verdict "not refused" *)
 Definition finish_conn (c : Z) : M bool :=
   set_mod c mm_connected ;;;
-  (s2 <- get ;; (if m_logger (find_mod c (mods s2)) then modify (fun s => with_loggers s (zinsert c (loggers s))) else ret tt) ;;;
+  (s2 <- get ;; (if m_logger (find_mod c (mods s2)) && m_reg (find_mod c (mods s2)) then modify (fun s => with_loggers s (zinsert c (loggers s))) else ret tt) ;;;
    ret true).
 
 Lemma connect_finish c : forall s, RegInv s -> m_connected (find_mod c (mods s)) = false \/ True ->
@@ -190,16 +190,13 @@ Proof.
       + intros m Hin E. pose proof (ro_pos _ _ _ _ _ H m Hin). lia. }
   cbv zeta in Hf. destruct Hf as (F1 & F2 & F3 & F4 & F5 & F6).
   assert (Hd1 : dyn_off s1 = dyn_off s) by reflexivity. clearbody s1.
-  unfold bind at 1. unfold get. destruct (m_logger (find_mod c (mods s1))) eqn:El.
-  - unfold bind at 1. simpl. split; [|split; [|split; [exact Hd1|auto]]].
+  unfold bind at 1. unfold get. destruct (m_logger (find_mod c (mods s1)) && m_reg (find_mod c (mods s1))) eqn:Elr.
+  - apply andb_true_iff in Elr. destruct Elr as [El Er].
+    unfold bind at 1. simpl. split; [|split; [|split; [exact Hd1|auto]]].
     + unfold RegInv, RegInvX. simpl.
-      destruct (m_reg (find_mod c (mods s1))) eqn:Er.
-      * assert (Hr0 : m_reg (find_mod c (mods s)) = true) by congruence.
-        apply reg_ok_logger_add; [exact H1|exact Er| |exact El|apply F6; exact Hr0].
-        rewrite F5. destruct (reg_open s c H Hr0) as (Ho & _). exact Ho.
-      * destruct (find_mod_cases c (mods s1)) as [Hd|[Hi Hcc]].
-        -- (* not a module at all: its logger flag is false *) rewrite Hd in El. discriminate.
-        -- apply reg_ok_logger_add_dead; auto. rewrite <- Hcc. split; [apply (ro_pos _ _ _ _ _ H1 _ Hi)|apply (ro_bound _ _ _ _ _ H1 _ Hi)].
+      assert (Hr0 : m_reg (find_mod c (mods s)) = true) by congruence.
+      apply reg_ok_logger_add; [exact H1|exact Er| |exact El|apply F6; exact Hr0].
+      rewrite F5. destruct (reg_open s c H Hr0) as (Ho & _). exact Ho.
     + constructor; [exact (kx_mods _ _ _ K1)|exact (kx_uid _ _ _ K1)].
   - simpl. split; [exact H1|]. split; [exact K1|]. split; [exact Hd1|auto].
 Qed.
